@@ -15,15 +15,15 @@ from common import *
 IMPORTS = "WaitNotify.Model"
 
 CAUSES = ["stop", "drain", "kill", "killhandler", "err", "panic", "stopkill",
-          "prefail", "prepanic", "postfail", "pserr", "pspanic"]
+          "prefail", "prepanic", "postfail", "pserr", "pspanic", "prekill", "postkill"]
 MCAUSE = {"stop": "CStop", "drain": "CStop", "pserr": "CStop", "pspanic": "CStop",
           "kill": "CKill", "killhandler": "CKill", "err": "CErr", "panic": "CErr",
           "stopkill": "CStopKill", "prefail": "CPreStartFail", "prepanic": "CPreStartFail",
-          "postfail": "CPostStartFail"}
+          "postfail": "CPostStartFail", "prekill": "CPreStartKill", "postkill": "CPostStartKill"}
 STOPLIKE = ("stop", "pserr", "pspanic", "stopkill")
 PARKABLE = ("stop", "drain", "pserr", "pspanic", "stopkill")
-KILLLIKE = ("kill", "killhandler")
-STARTING = ("prefail", "prepanic", "postfail")
+KILLLIKE = ("kill", "killhandler", "prekill", "postkill")
+STARTING = ("prefail", "prepanic", "postfail", "prekill", "postkill")
 
 
 # ------------------------------------------------------------------------------------------
@@ -152,7 +152,7 @@ def translate(scn):
 
 def gen_scenario(rng):
     cause = rng.choice(CAUSES)
-    sup = cause not in ("prefail", "prepanic") and rng.random() < 0.65
+    sup = cause not in ("prefail", "prepanic", "prekill") and rng.random() < 0.65
     park = cause in PARKABLE and (cause == "stopkill" or rng.random() < 0.7)
     ops = []
     join_used = [False]
@@ -230,7 +230,7 @@ def exhaustive_small():
     handle in {absent, before, during, after}"""
     out = []
     for cause in CAUSES:
-        for sup in ((False,) if cause in ("prefail", "prepanic") else (False, True)):
+        for sup in ((False,) if cause in ("prefail", "prepanic", "prekill") else (False, True)):
             parks = (True,) if cause == "stopkill" else ((False, True) if cause in PARKABLE else (False,))
             for park in parks:
                 phases = ["-", "b", "a"] + (["d"] if park else [])
@@ -520,7 +520,7 @@ def run(chk):
                             "cause-driven scenarios with wait/stop_and_wait/kill_and_wait/drain_and_wait/join waiters, "
                             "timeouts on the virtual clock, late and repeated calls. non-trivial = at least one waiter; "
                             "distinct = distinct scenario descriptions")
-    chk.coverage["exhaustive_part"] = "12 causes x sup x park x {absent,before,during,after}^3 placements"
+    chk.coverage["exhaustive_part"] = "14 causes x sup x park x {absent,before,during,after}^3 placements"
     return chk.finish(trusted_base=TRUSTED)
 
 
